@@ -479,7 +479,7 @@ func c08PathFilter(c *Ctx, m map[string]interface{}, path string, specs []string
 
 func c08Run(c *Ctx) {
 	mustBeDefault(c)
-	c.S.Rule = "part 1 (search): every Map template with <= N nodes over keys {a,bbbb,k} plus the sibling family {a:[M1,M2]} (Mi every map template with <= 4 nodes over {a,k}) (lists, list-in-list, empty containers, unique leaves) x keys {a,b,k,z,*}: ValuesForKey/ValueForKey vs reference, PathsForKey as a set, PathForKeyShortest minimal, and values-through-paths = ValuesForKey. part 2 (filters): every Map template with <= M nodes over keys {a,k} with typed leaves {\"s\",1,true} x key/path x every set of 1..2 sub-key conditions over {a (maybe present), z (absent)} x {matching, non-matching, *} x {untyped, :string, :bool, :num} x {plain, negated}, under field separators ':' and '|' (plus sub-key texts that are well formed under both separators with different meanings, used under one separator after the other, back and forth; number-typed conditions in 22 spellings x 5 type names x plain/negated): filtered result = maps of the unfiltered result satisfying the reference predicate. Each case runs under ascending and descending map order; cases that range over >= 2 keys are also explored under every single order deviation (E-choice bound 1). Result slices are retained (last 16) and re-checked after every later call. non-trivial = key present (part 1) / filter keeps a proper non-empty subset (part 2)."
+	c.S.Rule = "part 1 (search): every Map template with <= N nodes over keys {a,bbbb,k} plus the sibling family {a:[M1,M2]} (Mi every map template with <= 4 nodes over {a,k}) (lists, list-in-list, empty containers, unique leaves) x keys {a,b,k,z,*}: ValuesForKey/ValueForKey vs reference, PathsForKey as a set, PathForKeyShortest minimal, and values-through-paths = ValuesForKey. part 2 (filters): every Map template with <= M nodes over keys {a,k} with typed leaves {\"s\",1,true} x key/path x every set of 1..2 sub-key conditions over {a (maybe present), z (absent)} x {matching, non-matching, *} x {untyped, :string, :bool, :num} x {plain, negated}, under field separators ':', '|', the two-byte character U+00A6 and the two-character '::' (plus sub-key texts that are well formed under both separators with different meanings, used under one separator after the other, back and forth; number-typed conditions in 22 spellings x 5 type names x plain/negated): filtered result = maps of the unfiltered result satisfying the reference predicate. Each case runs under ascending and descending map order; cases that range over >= 2 keys are also explored under every single order deviation (E-choice bound 1). Result slices are retained (last 16) and re-checked after every later call. non-trivial = key present (part 1) / filter keeps a proper non-empty subset (part 2)."
 	c.S.Assumptions = []string{"negated condition with a concrete value on an absent key: satisfied and not-satisfied readings both accepted", "reference search/filter semantics in harness/c08.go written from the documentation"}
 	n1, n2, ech := 6, 5, 5
 	if c.Thorough {
@@ -602,7 +602,7 @@ func c08Run(c *Ctx) {
 	}
 	g2 := newGen(GenP{Keys: []string{"a", "k"}, MaxList: 3, MaxKeys: 2, EmptyList: false, EmptyMap: true, ListInList: false,
 		Leaves: []interface{}{"s", 1.0, true}})
-	for _, sep := range []string{":", "|"} {
+	for _, sep := range []string{":", "|", "\u00a6", "::"} { // one byte, one byte, one two-byte character, two characters
 		sets := specsFor(sep)
 		if c.Shard == 0 {
 			c.Count("subkey_sets_"+sep, int64(len(sets)))
@@ -614,6 +614,9 @@ func c08Run(c *Ctx) {
 				for si, set := range sets {
 					if sep == "|" && si%4 != 0 && !c.Thorough {
 						continue // alternative separator on a quarter of the sets in quick
+					}
+					if len(sep) > 1 && si%8 != 0 && !c.Thorough {
+						continue // multi-byte separators on an eighth of the sets in quick
 					}
 					if !c.Mine() {
 						continue
